@@ -6,9 +6,16 @@ def _wb(name, pkg, **kw):
 
 SPEC = {
     "bins": [
+        {"name": "c12-math", "pkg": "./zz_verif/c12", "run": "^TestC12", "configs": CPU_OFF, "quick_configs": ["default"],
+         "shards": {"quick": 1, "thorough": 2}},
         _wb("c12-wb-fp25519", "./math/fp25519"),
         _wb("c12-wb-fp448", "./math/fp448"),
         _wb("c12-wb-p384", "./ecc/p384"),
+        _wb("c12-wb-fourq", "./ecc/fourq"),
+        _wb("c12-wb-csidh", "./dh/csidh"),
+        _wb("c12-wb-ed25519", "./sign/ed25519"),
+        _wb("c12-wb-kyber", "./pke/kyber/internal/common"),
+        _wb("c12-wb-dilithium", "./sign/internal/dilithium"),
     ],
     "rule": "TODO",
     "assumptions": COMMON_ASSUME,
